@@ -545,7 +545,7 @@ open Core Core.Ops Ckks.Sem Ckks.CoreSem
 
 /-- radix `2^4`, degree 2, rank 1: the parameters of the examples -/
 def env4 : Env := ⟨4, [1], 53⟩
-theorem env4_ok : EnvOK env4 := ⟨by decide, by decide⟩
+def env4_ok : EnvOK env4 := ⟨by decide, by decide⟩
 
 /-- three limbs, `log_delta = 4`, `log_budget = 8` -/
 def xA : DCt := ⟨{ base2k := 4, k := 12, n := 2, cols := [[[1, 2], [3, -4], [5, 6]], [[7, -8], [1, 0], [2, 2]]] }, ⟨4, 8⟩⟩
@@ -554,9 +554,9 @@ def xB : DCt := ⟨{ base2k := 4, k := 8, n := 2, cols := [[[-3, 5], [2, -1]], [
 /-- a destination of two limbs -/
 def xD : DCt := ⟨{ base2k := 4, k := 8, n := 2, cols := [[[0, 0], [0, 0]], [[7, 7], [7, 7]]] }, ⟨0, 0⟩⟩
 
-theorem xA_ok : DOK env4 2 1 xA := ⟨by decide, rfl, rfl, by decide⟩
-theorem xB_ok : DOK env4 2 1 xB := ⟨by decide, rfl, rfl, by decide⟩
-theorem xD_ok : DOK env4 2 1 xD := ⟨by decide, rfl, rfl, by decide⟩
+def xA_ok : DOK env4 2 1 xA := ⟨by decide, rfl, rfl, by decide⟩
+def xB_ok : DOK env4 2 1 xB := ⟨by decide, rfl, rfl, by decide⟩
+def xD_ok : DOK env4 2 1 xD := ⟨by decide, rfl, rfl, by decide⟩
 
 /-- **add / sub, out of place**: `val(c') = val(a) ± val(b)` within `2·(1+Σ‖sᵢ‖₁)` units of the last limb of
 `c'` (one for the aligned copy of one operand, one for the fused shift-accumulate of the other; the equal-budget
@@ -701,7 +701,7 @@ theorem program_sem {env : Env} (he : EnvOK env) {N r : Nat} (ops : List LOp) {p
         Tracks s N pool' (specRun env (sn r s) (DPool.cts pool) M E ops).1 (specRun env (sn r s) (DPool.cts pool) M E ops).2 :=
   drun_sem he ops hp hm
 
-theorem pool4_ok : AllOK env4 2 1 [xA, xB, xD] := by
+def pool4_ok : AllOK env4 2 1 [xA, xB, xD] := by
   intro c hc
   simp only [List.mem_cons, List.mem_nil_iff, or_false] at hc
   rcases hc with rfl | rfl | rfl
